@@ -32,7 +32,14 @@ class SArr:
     def reshape(self, *shape):
         if len(shape) == 1 and isinstance(shape[0], (tuple, list)):
             shape = tuple(shape[0])
-        return reshape_units(self, tuple(shape))
+        shape = tuple(shape)
+        if any((not isinstance(s, SV)) and s == -1 for s in shape):
+            # only the form used by the verified code: a 1-d array reshaped to (-1, 1, ..., 1)
+            if len(self.shape) == 1 and shape[0] == -1 and all(is_one(s) for s in shape[1:]):
+                shape = (self.shape[0],) + shape[1:]
+            else:
+                raise Unsupported("reshape with -1 outside the (n,) -> (-1, 1, ..., 1) form")
+        return reshape_units(self, shape)
 
     def __len__(self):
         raise Unsupported("len() of a symbolic array")
@@ -302,7 +309,52 @@ def _basic_index(x, index):
     return SArr(tuple(shape), get, x.dtype)
 
 
-SArr.__sym_getitem__ = _basic_index
+def _advanced_index(x, index):
+    """numpy advanced indexing with one integer array per dimension (all dimensions indexed): the index arrays are
+    broadcast together and result[idx] = x[ind_0[idx], ..., ind_k[idx]] (numpy indexing documentation)."""
+    if len(index) != len(x.shape) or not all(isinstance(i, SArr) for i in index):
+        raise Unsupported("advanced indexing form outside the model")
+    n = max(len(i.shape) for i in index)
+    shape = [1] * n
+    units = []
+    for ind in index:
+        u = {}
+        off = n - len(ind.shape)
+        for k, s in enumerate(ind.shape):
+            pos = off + k
+            if is_one(shape[pos]):
+                shape[pos] = s
+                u[k] = is_one(s)
+            elif is_one(s):
+                u[k] = True
+            elif same_size(shape[pos], s) or core.cur().entails(core._lift(deep_eq(shape[pos], s))):
+                u[k] = False
+            elif truth(deep_eq(s, 1)):
+                u[k] = True
+            elif truth(deep_eq(shape[pos], 1)):
+                # earlier index arrays were units here: numpy broadcasts them; they already read position 0
+                shape[pos] = s
+                u[k] = False
+            else:
+                raise Declined("IndexError", "shape mismatch: indexing arrays could not be broadcast together")
+        units.append((off, u))
+
+    def get(idx):
+        pos = []
+        for ind, (off, u) in zip(index, units):
+            pos.append(ind.get(tuple(0 if u[k] else idx[off + k] for k in range(len(ind.shape)))))
+        return x.get(tuple(pos))
+
+    return SArr(tuple(shape), get, x.dtype)
+
+
+def _getitem(x, index):
+    if isinstance(index, tuple) and index and all(isinstance(i, SArr) for i in index):
+        return _advanced_index(x, index)
+    return _basic_index(x, index)
+
+
+SArr.__sym_getitem__ = _getitem
 
 
 def select(i, values):
@@ -363,5 +415,14 @@ def cat(parts, dim=0):
     return SArr(shape, get)
 
 
+def new_arange(prototype, *args):
+    if len(args) == 1:
+        start, stop = 0, args[0]
+    else:
+        start, stop = args[:2]
+    return SArr((stop - start,), lambda idx: start + idx[0], "int")
+
+
+OpsArrayNS.new_arange = staticmethod(new_arange)
 OpsArrayNS.stack = staticmethod(stack)
 OpsArrayNS.cat = staticmethod(cat)
